@@ -111,7 +111,7 @@ def run(module, cfg=None, workers=None, env=None, timeout=1800, simulate=None,
     """Run TLC on spec/<module>.tla with spec/<cfg> (default <module>.cfg)."""
     cfg = cfg or (module + '.cfg')
     meta = tempfile.mkdtemp(prefix='tlc_meta_')
-    java_opts = ['-XX:+UseParallelGC', '-Xmx12g', '-Xss64m']
+    java_opts = ['-XX:+UseParallelGC', '-Xmx12g', '-Xss64m', '-Djava.io.tmpdir=' + meta]      # TLC's own scratch directories go with the metadir
     if dfs:
         java_opts.append('-Dtlc2.tool.queue.IStateQueue=StateDeque')
     cmd = ['java'] + java_opts + ['-cp', JAR + ':' + DEPS, 'tlc2.TLC',
